@@ -11,7 +11,7 @@ use proptest::prelude::*;
 use serde_json::{json, Value};
 
 // ---------------------------------------------------------------- widening of literals/numbers
-const WIDE_CHARS: [char; 24] = ['a', 'Z', '0', ' ', '"', '\'', '\\', '\n', '\r', '\t', '\0', '\u{1}', '\u{7f}', 'é', 'ß', '€', '\u{2028}', '😀', '\u{10FFFF}', '/', '*', '{', '#', '^'];
+const WIDE_CHARS: [char; 26] = ['a', 'Z', '0', ' ', '"', '\'', '\\', '\n', '\r', '\t', '\0', '\u{1}', '\u{7f}', '\u{80}', '\u{ff}', 'é', 'ß', '€', '\u{2028}', '😀', '\u{10FFFF}', '/', '*', '{', '#', '^'];
 const WIDE_COUNTS: [u32; 8] = [1, 2, 3, 7, 255, 65536, 2147483648, 4294967295];
 const WIDE_INDICES: [i32; 9] = [0, 1, -1, 2, -3, 1000, -1000, i32::MAX, i32::MIN];
 const IDENTS: [&str; 8] = ["a", "_x1", "A_b", "r0", "zz_9", "POP_x", "PEEKY", "e"];
@@ -191,7 +191,8 @@ impl<'a> Speller<'a> {
         if let Some(n) = named {
             forms.push(n.to_string());
         }
-        if (c as u32) <= 0x7f {
+        // a two-digit byte escape denotes the code point U+00NN (`char::from(u8)`), also above 0x7F
+        if (c as u32) <= 0xff {
             forms.push(format!("\\x{:02X}", c as u32));
             forms.push(format!("\\x{:02x}", c as u32));
         }
@@ -585,8 +586,8 @@ pub fn replay(case: &Value) -> Result<(), Fail> {
 
 pub const DEF: CheckDef = CheckDef {
     id: "C07",
-    rule: "proptest-generated valid grammars (1-3 rules + optional WHITESPACE/COMMENT, all operators, stack ops, tags/PUSH_LITERAL under grammar-extras) whose literals, range bounds, repetition counts and PEEK indices are then widened (quotes, backslashes, control characters, NUL, DEL, non-BMP and U+10FFFF; counts up to 2^32-1; indices across the i32 range), x a generated spelling: every inter-token gap independently empty/space/tab/newline/CRLF/line comment/nested block comment; optional //! and /// doc lines; optional leading `|`; each literal character independently raw, named escape, \\xHH (<= 0x7F, either case) or \\u{..} with 2-6 digits; negative indices optionally with leading zeros; only the parentheses precedence requires or (second mode) random redundant ones; optional gap between `^` and its string. Oracle: round trip - parser::parse + consume_rules on the spelled text must equal the abstract rules (names, modifiers, operator tree, unescaped contents, bounds, indices). Non-trivial = (>= 1 precedence-forced parenthesis or >= 3 operators of one level) and >= 1 comment and >= 1 escape in the spelling; distinct = distinct spelled text. Both feature configurations.",
-    assumptions: &["only grammars whose canonical spelling passes validation are counted (consume_rules validates); \\xHH is used only for characters <= 0x7F"],
+    rule: "proptest-generated valid grammars (1-3 rules + optional WHITESPACE/COMMENT, all operators, stack ops, tags/PUSH_LITERAL under grammar-extras) whose literals, range bounds, repetition counts and PEEK indices are then widened (quotes, backslashes, control characters, NUL, DEL, non-BMP and U+10FFFF; counts up to 2^32-1; indices across the i32 range), x a generated spelling: every inter-token gap independently empty/space/tab/newline/CRLF/line comment/nested block comment; optional //! and /// doc lines; optional leading `|`; each literal character independently raw, named escape, \\xHH (code points <= 0xFF, either case) or \\u{..} with 2-6 digits; negative indices optionally with leading zeros; only the parentheses precedence requires or (second mode) random redundant ones; optional gap between `^` and its string. Oracle: round trip - parser::parse + consume_rules on the spelled text must equal the abstract rules (names, modifiers, operator tree, unescaped contents, bounds, indices). Non-trivial = (>= 1 precedence-forced parenthesis or >= 3 operators of one level) and >= 1 comment and >= 1 escape in the spelling; distinct = distinct spelled text. Both feature configurations.",
+    assumptions: &["only grammars whose canonical spelling passes validation are counted (consume_rules validates); \\xHH is read as the code point U+00HH (what the reader's char::from(u8) does; the prose defers to Rust's byte escapes)"],
     floor: |t| t.pick(50_000, 500_000),
     shards: |_| 16,
     run,
